@@ -1,0 +1,75 @@
+//! Observation hooks for external verification tooling.
+//!
+//! Only compiled with the `verif-hooks` feature. The hooks export state, they
+//! never change what loom does.
+
+use std::cell::RefCell;
+
+/// State of a thread at a scheduling decision.
+#[derive(Debug, Clone, Copy, PartialEq, Eq, Hash)]
+pub enum ThreadStatus {
+    /// The thread cannot run
+    Disabled,
+    /// The thread can run but is not going to be explored here
+    Skip,
+    /// The thread yielded
+    Yield,
+    /// The thread is going to be explored here
+    Pending,
+    /// The thread is the one chosen in the current iteration
+    Active,
+    /// The thread has been explored here
+    Visited,
+}
+
+/// One entry of the decision path of an iteration.
+#[derive(Debug, Clone, PartialEq, Eq, Hash)]
+pub enum Branch {
+    /// A scheduling decision
+    Schedule {
+        /// Per-thread status
+        threads: Vec<ThreadStatus>,
+        /// The thread that was running before the decision, if it could go on
+        initial_active: Option<u8>,
+        /// Preemptions counted on the way to this decision
+        preemptions: u8,
+        /// Alternatives of this decision are explored
+        exploring: bool,
+    },
+    /// Which store an atomic load (or rmw) reads
+    Load {
+        /// Candidate stores
+        values: Vec<u8>,
+        /// Index of the candidate taken
+        pos: u8,
+        /// Alternatives of this decision are explored
+        exploring: bool,
+    },
+    /// Whether a wait returns spuriously
+    Spurious {
+        /// The decision taken
+        spur: bool,
+        /// Alternatives of this decision are explored
+        exploring: bool,
+    },
+}
+
+type Hook = Box<dyn FnMut(&[Branch])>;
+
+std::thread_local! {
+    static ITERATION_HOOK: RefCell<Option<Hook>> = RefCell::new(None);
+}
+
+/// Sets (or clears) the callback invoked on the calling OS thread at the end
+/// of every iteration with the decision path the iteration followed.
+pub fn set_iteration_hook(hook: Option<Hook>) {
+    ITERATION_HOOK.with(|h| *h.borrow_mut() = hook);
+}
+
+pub(crate) fn iteration_done(path: &crate::rt::Path) {
+    ITERATION_HOOK.with(|h| {
+        if let Some(hook) = h.borrow_mut().as_mut() {
+            hook(&path.verif_snapshot());
+        }
+    });
+}
